@@ -15,6 +15,8 @@ type vAttempt struct {
 	addr     string
 	start    int64
 	end      int64
+	startSeq int // position of the start / end event in the global event order
+	endSeq   int
 	outcome  int // 0 succeed, 1 fail, 2 hang until the context ends
 	ctxDead  bool
 	conn     *vDialConn
@@ -34,6 +36,7 @@ func verifC18Dial() {
 		res.Address = append(res.Address, net.IP{10, 0, 0, byte(i + 1)})
 	}
 	var atts []*vAttempt
+	evt := 0
 	inflight, maxInflight := 0, 0
 	t0 := vNowNanos()
 	outcomes := make([]int, nt)
@@ -46,6 +49,8 @@ func verifC18Dial() {
 	d.DialFunc = func(ctx context.Context, network, addr string, c *tls.Config) (*vDialConn, error) {
 		idx := len(atts)
 		a := &vAttempt{addr: addr, start: vNowNanos() - t0, outcome: outcomes[idx%nt], ctxDead: ctx.Err() != nil}
+		evt++
+		a.startSeq = evt
 		atts = append(atts, a)
 		inflight++
 		if inflight > maxInflight {
@@ -54,6 +59,8 @@ func verifC18Dial() {
 		defer func() {
 			inflight--
 			a.end = vNowNanos() - t0
+			evt++
+			a.endSeq = evt
 			a.returned = true
 		}()
 		if a.ctxDead {
@@ -99,18 +106,26 @@ func verifC18Dial() {
 		want := net.JoinHostPort(net.IP{10, 0, 0, byte(i + 1)}.String(), "443")
 		vAssert(a.addr == want, "attempts start in target order")
 	}
-	// staggering: attempt i starts only after the delay or after an earlier failure
+	// staggering: an attempt may start earlier than ConcurrencyDelay after the previous
+	// start only when a failure woke the feeder, and every such early start needs a
+	// failure of its own (a failure wakes the feeder at most once; the wake-up may
+	// be delivered after the previous attempt was handed to a worker)
+	early := 0
 	for i := 1; i < len(atts); i++ {
 		if atts[i].ctxDead {
 			continue // begun after the outcome was decided: must simply see a cancelled context
 		}
-		earlierFailure := false
-		for j := 0; j < i; j++ {
-			if atts[j].returned && atts[j].conn == nil && atts[j].end <= atts[i].start {
-				earlierFailure = true
+		if atts[i].start >= atts[i-1].start+delay-vUnit/2 {
+			continue
+		}
+		early++
+		failures := 0
+		for j := 0; j < len(atts); j++ {
+			if atts[j].returned && atts[j].conn == nil && atts[j].endSeq < atts[i].startSeq {
+				failures++
 			}
 		}
-		vAssert(earlierFailure || atts[i].start >= atts[i-1].start+delay-vUnit/2, "the next attempt starts only after ConcurrencyDelay or an earlier failure")
+		vAssert(early <= failures, "the next attempt starts only after ConcurrencyDelay, or after an earlier failure of its own")
 	}
 	for _, a := range atts {
 		if a.outcome == 2 && a.returned && !a.ctxDead && vSymbolic() {
